@@ -53,8 +53,35 @@ def reassemble(frames: list[bytes], fast: bool) -> bytes:
     return data[:total]
 
 
+# What an encode_* call returned belongs to the caller: the last few results of every encoder are HELD (the very objects, next
+# to a copy of their contents taken at return time) and looked at again after each later call on that encoder; a result whose
+# contents have changed meanwhile is recorded in CHANGED_LATER (route, label of the earlier call, then, now).
+HELD: dict[int, list] = {}
+CHANGED_LATER: list[dict] = []
+HOLD = 3
+
+
+def _snapshot(packets):
+    return [bytes(p) if not isinstance(p, str) else p.encode() for p in packets]
+
+
+def look_again(enc) -> None:
+    for route, label, obj, snap in HELD.get(id(enc), []):
+        try:
+            now = _snapshot(obj)
+        except Exception as e:              # noqa: BLE001
+            now = [repr(e).encode()]
+        if now != snap and not any(c["label"] == label and c["route"] == route for c in CHANGED_LATER):
+            CHANGED_LATER.append({"route": route, "label": label, "then": [b.hex() for b in snap], "now": [b.hex() for b in now]})
+
+
 def wire_payload(enc, route: str, msg, fast: bool) -> bytes:
     if route == "actisense":
         return payload_of_actisense(enc.encode_actisense(msg))
     packets = {"ebyte": enc.encode_ebyte, "usb": enc.encode_usb, "yd": enc.encode_yacht_devices}[route](msg)
+    look_again(enc)
+    held = HELD.setdefault(id(enc), [])
+    if isinstance(packets, list):
+        held.append((route, f"{getattr(msg, 'id', '')}#{len(held)}", packets, _snapshot(packets)))
+        del held[:-HOLD]
     return reassemble(frames_of(route, packets), fast)
